@@ -4,6 +4,7 @@ import (
 	"fmt"
 
 	"verifharness/adapt"
+	"verifharness/model"
 	"verifharness/mon"
 	"verifharness/refmodel"
 	"verifharness/runner"
@@ -354,6 +355,37 @@ func (p *c04) RunCase(ctx *runner.Ctx) runner.CaseResult {
 		dres := c2.Do(adapt.Op{Kind: adapt.OpDelete, Table: spec.Name, Key: del})
 		if dres.Class != adapt.ClsOK {
 			continue
+		}
+		if sattr, skind := t.SortAttr(rq.op.Index); pi%3 == 2 && variant == "delete-boundary" && rq.op.Index != "" && (sattr == "s" || sattr == "g") && len(w1.items) > 0 {
+			// the boundary item is deleted AND written again with another index sort key: it now sits at another
+			// position of the index. Reading resumes by POSITION: the items after the key's position - the moved item
+			// among them if that is where it went - exactly once, none of those before it a second time
+			b := w1.items[len(w1.items)-1]
+			if primaryKeyOf(b).Canon() == del.Canon() && b[sattr].K == skind {
+				pool := ixSPool
+				if sattr == "g" {
+					pool = ixGPool
+				}
+				nb := b.Clone()
+				nb[sattr] = ixV(sattr, mon.Pick(r, pool))
+				if c := model.CompareSort(nb, b, sattr, skind); c != 0 && c2.Do(adapt.Op{Kind: adapt.OpPut, Table: spec.Name, Item: nb}).Class == adapt.ClsOK {
+					variant = "move-boundary"
+					after := (c > 0) != rq.op.Rev
+					inRest := map[string]bool{}
+					for _, it := range rest {
+						inRest[primaryKeyOf(it).Canon()] = true
+					}
+					u2 := c2.Do(rq.op)
+					rest = []val.Item{}
+					for _, it := range u2.Items {
+						pk := primaryKeyOf(it).Canon()
+						if inRest[pk] || (after && pk == del.Canon()) {
+							rest = append(rest, it)
+						}
+					}
+					x.r.Counters["moved_boundary_probes"]++
+				}
+			}
 		}
 		w2 := walk(c2, rq.op, L, len(src)+3, 0, lek, ctx, x)
 		x.fp(true, "%s|%s|L%d|k%d|%s", adapter, rq.kind, L, k, variant)
